@@ -65,3 +65,6 @@ pub mod io_nostd;
 pub use io_nostd as io;
 
 mod tests;
+
+#[cfg(feature = "verif_hooks")]
+pub mod verif_hooks;
